@@ -20,11 +20,13 @@ import AmVerif.Proofs.ChangeCodec
     proved at the column layer: `C18_rle_column_roundtrip`, `C18_delta_column_roundtrip` (the legacy
     `RleDecoder` / `DeltaDecoder` iterators on the legacy encoders' output, all-null columns
     included); the whole-change statement is `C18_reencode_sample` on a concrete change only.
-    MISSING for a general `C18_decode_encode`: the boolean / value / group iterators in lock step
-    (`rowNext`), the column-layout parser on the canonical column table, the metadata fields, and
-    the actor-table translation (`expand ∘ toRow`).  The correspondence run stands in for them:
-    `codec.reencode` is byte-compared with the real `Change::from(change.decode())` on every
-    library-written change, `codec.expanded` / `codec.change` on every hand-built expanded change.
+    THE GENERAL STATEMENT IS NOW PROVED in `Props/C18Full.lean`: `C18_change_roundtrip`
+    (`ChangeWF c → decodeChange (encodeChange c) = ok (hash, c)`: the boolean / value / group
+    iterators in lock step, the column-layout parser on the canonical column table, the metadata
+    fields and the actor-table translation), `C18_reencode_same_bytes`, `C18_reencode_same_hash`;
+    the hypothesis `ChangeWF` is evaluated on every library-written change of the correspondence run
+    (`codec.wf`), next to `codec.reencode` (byte-compared with the real `Change::from(change.decode())`)
+    and `codec.expanded` / `codec.change` on every hand-built expanded change.
   * third sentence (bundles): not modelled; decided by the direct oracles `! C18 sig=bundle-*` of
     the `codec` engine (byte identity of `to_changes()`, re-parse, load = apply) only.
 -/
